@@ -99,6 +99,7 @@ class Steady(Scenario):
     isinstance_shim = ["mxlpy.simulation"]
     max_paths = 200
     max_decisions = 5000
+    timeout_ms = 15000
 
     def __init__(self, dim, rel, user_y0, earlier, alias, K, e_conc=None, drift=False, via="simulator", zero_start=False):
         self.dim, self.rel, self.user_y0, self.earlier, self.alias, self.K = dim, rel, user_y0, earlier, alias, K
@@ -257,7 +258,7 @@ class Steady(Scenario):
 
 def scenarios(tier, seed):
     scs = []
-    Ks = [3] if tier == "quick" else [3, 5]
+    Ks = [3] if tier == "quick" else [3, 4]
     for alias in (True, False):
         for rel in (False,):  # relative norm: see META.outside (probed: z3 answers unknown on the rational inequalities)
             for user in (False, True):
